@@ -206,7 +206,9 @@ def _samplers(c, e, D, bad):
         x, v = S.sample1d(r, (lo, hi, n))
         xs = [float(Fraction(a, b)) / D for a, b in e["xs"]]
         if len(x) != n or not _argsclose(list(x), xs, 1e-15):
-            bad("grid-points-differ", f"{list(x)} vs {xs}")
+            bad("grid-points-differ", f"{list(x)[:6]}.. vs {xs[:6]}..")
+        elif float(x[0]) != lo or (n > 1 and float(x[-1]) != hi):
+            bad("grid-misses-an-end-point", f"first {float(x[0])!r}, last {float(x[-1])!r} for the range ({lo!r}, {hi!r}, {n})")
         if [q[0] for q in r.calls] != list(x) or list(v) != [code(float(q)) for q in x]:
             bad("samples-not-function-at-grid-points", f"{list(v)}")
         pts = np.array([0.3, -1.2, 0.3, 5.0])
@@ -227,6 +229,8 @@ def _samplers(c, e, D, bad):
         if s.shape != (n, m) or not _argsclose(list(x), ex, 1e-15) or not _argsclose(list(y), ey, 1e-15):
             bad("grid-or-shape-differs", f"shape {s.shape}; x {list(x)} vs {ex}; y {list(y)} vs {ey}")
             return
+        if (float(x[0]), float(x[-1]), float(y[0]), float(y[-1])) != (xr[0], xr[1] if n > 1 else xr[0], yr[0], yr[1] if m > 1 else yr[0]):
+            bad("grid-misses-an-end-point", f"x {float(x[0])!r}..{float(x[-1])!r}, y {float(y[0])!r}..{float(y[-1])!r}")
         ex, ey = [float(q) for q in x], [float(q) for q in y]
         for i in range(n):
             for j in range(m):
@@ -292,6 +296,7 @@ INVARIANT PeriodicInRange
 INVARIANT ClampInRange
 INVARIANT OrientationIrrelevant
 INVARIANT SwizzleIsProjection
+INVARIANT GridHitsBothEnds
 INVARIANT EmitCase
 """
 
